@@ -16,6 +16,7 @@
 #include <fstream>
 #include <ftw.h>
 #include <exception>
+#include <execinfo.h>
 
 // sanitizer runtime configuration: distinct exit codes so the parent can classify
 extern "C" __attribute__( ( used, visibility( "default" ) ) ) const char * __asan_default_options() {
@@ -25,7 +26,78 @@ extern "C" __attribute__( ( used, visibility( "default" ) ) ) const char * __ubs
     return "halt_on_error=1:exitcode=78:print_stacktrace=1";
 }
 
+// sanitizer runtime helpers (weak: absent in the plain flavour)
+extern "C" {
+    void __sanitizer_symbolize_pc( void * pc, const char * fmt, char * out_buf, size_t out_buf_size ) __attribute__( ( weak ) );
+}
+
 namespace sim {
+
+// ---- hang sampler ------------------------------------------------------------
+// When the virtual-CPU budget expires the stack is sampled three times, 40 ms of CPU apart; the
+// innermost frame common to all samples is where the run is looping.  That frame (symbolised) names
+// the hang, so the violation class is stable although the interrupted instruction is not.
+static const int HS_MAX = 96;
+static void * hs_frames[3][HS_MAX];
+static int hs_n[3];
+static volatile int hs_count = 0;
+
+static std::string hs_func( void * pc ) {
+    char buf[1024];
+    buf[0] = 0;
+    if( __sanitizer_symbolize_pc ) {
+        __sanitizer_symbolize_pc( pc, "%f", buf, sizeof buf );
+    }
+    std::string f = buf[0] ? buf : "??";
+    size_t p = f.find( '(' );
+    if( p != std::string::npos ) {
+        f.resize( p );
+    }
+    return f;
+}
+
+static void hs_report() {
+    // frames are innermost-first; compare FUNCTIONS (not pcs) from the outermost end: the innermost function
+    // common to all three samples is the one that is looping
+    std::vector<std::string> fn[3];
+    for( int k = 0; k < 3; k++ ) {
+        for( int i = hs_n[k] - 1; i >= 0; i-- ) {
+            fn[k].push_back( hs_func( hs_frames[k][i] ) );
+        }
+    }
+    size_t common = 0;
+    while( common < fn[0].size() && common < fn[1].size() && common < fn[2].size()
+            && fn[0][common] == fn[1][common] && fn[0][common] == fn[2][common] ) {
+        common++;
+    }
+    dprintf( 2, "HANG-SAMPLER: %d common outer frames\n", ( int )common );
+    char buf[1024];
+    int idx = 0;
+    for( int c = ( int )common - 1; c >= 0 && idx < 12; c--, idx++ ) {
+        void * pc = hs_frames[0][hs_n[0] - 1 - c];
+        buf[0] = 0;
+        if( __sanitizer_symbolize_pc ) {
+            __sanitizer_symbolize_pc( pc, "%s:%l", buf, sizeof buf );
+        }
+        dprintf( 2, "    #%d %p in %s %s\n", idx, pc, fn[0][c].c_str(), buf[0] ? buf : "??" );
+    }
+}
+
+static void hs_handler( int ) {
+    int k = hs_count;
+    if( k < 3 ) {
+        hs_n[k] = backtrace( hs_frames[k], HS_MAX );
+        hs_count = k + 1;
+    }
+    if( hs_count >= 3 ) {
+        hs_report();
+        _exit( 95 );
+    }
+    struct itimerval it;
+    memset( &it, 0, sizeof it );
+    it.it_value.tv_usec = 40000;
+    setitimer( ITIMER_VIRTUAL, &it, 0 );
+}
 
 static World g_world;
 World & world() {
@@ -232,7 +304,15 @@ static void child_run( const J & plan, PlanFn fn, long cpu_ms ) {
     memset( &it, 0, sizeof it );
     it.it_value.tv_sec = ms / 1000;
     it.it_value.tv_usec = ( ms % 1000 ) * 1000;
-    signal( SIGVTALRM, SIG_DFL );
+    {
+        void * warm[4];
+        backtrace( warm, 4 );   // loads the unwinder now, not inside the signal handler
+    }
+    struct sigaction sa;
+    memset( &sa, 0, sizeof sa );
+    sa.sa_handler = hs_handler;
+    sigemptyset( &sa.sa_mask );
+    sigaction( SIGVTALRM, &sa, 0 );
     setitimer( ITIMER_VIRTUAL, &it, 0 );
     struct rlimit rl;
     rl.rlim_cur = rl.rlim_max = ( rlim_t )( ms / 1000 + 5 );
@@ -431,6 +511,8 @@ int server_main( int argc, char ** argv, PlanFn fn, long cpu_ms_default ) {
                 e.k( "end", "asan" );
             } else if( ec == 78 ) {
                 e.k( "end", "ubsan" );
+            } else if( ec == 95 ) {
+                e.k( "end", "cpu" ).k( "sig", 0 );
             } else if( ec == 96 ) {
                 e.k( "end", "exception" );
             } else if( ec == 98 || ec == 97 ) {
